@@ -165,7 +165,7 @@ def coq_props(pid, timeout=600):
     return res
 
 
-FORBIDDEN = r'\b(Admitted|admit|Axiom|Axioms|Parameter|Parameters|Conjecture|Abort All|Unset Guard Checking|bypass_check|Admit Obligations|native_compute)\b|type-in-type|impredicative-set'
+FORBIDDEN = r'\b(Admitted|admit|Axiom|Axioms|Parameter|Parameters|Conjecture|Abort All|Unset Guard Checking|Unset Positivity Checking|Unset Universe Checking|bypass_check|Admit Obligations|native_compute)\b|type-in-type|impredicative-set'
 
 
 def strip_coq_comments(text):
@@ -194,9 +194,17 @@ def forbidden_scan():
             if fn.endswith('.v'):
                 p = os.path.join(root, fn)
                 code = strip_coq_comments(open(p, errors='replace').read())
+                stack = []      # open Section / Module names: a Variable / Hypothesis / Context outside every Section declares an axiom
                 for i, ln in enumerate(code.split('\n'), 1):
                     if re.search(FORBIDDEN, ln):
                         hits.append('%s:%d: %s' % (os.path.relpath(p, COQ), i, ln.strip()))
+                    for m in re.finditer(r'(?:^|\.\s+|^\s*)(Section|Module\s+Type|Module|End)\s+([A-Za-z_][A-Za-z0-9_\']*)\s*\.', ln):
+                        if m.group(1) == 'End':
+                            if stack: stack.pop()
+                        elif ':=' not in ln[m.start():]:
+                            stack.append(m.group(1).split()[0])
+                    if re.match(r'\s*(Local\s+|Global\s+)?(Variables?|Hypothes[ie]s|Context)\b', ln) and 'Section' not in stack:
+                        hits.append('%s:%d: %s (outside a Section)' % (os.path.relpath(p, COQ), i, ln.strip()))
     return hits
 
 
